@@ -220,6 +220,11 @@ h("kd6_stored_resume", D + "/kd6_stored.rs", "deflate::verif_kani::kd6_stored", 
   bounds="as kd6_stored_one_call, but from the state an earlier Z_NO_FLUSH call leaves behind: 0..=3 symbolic bytes buffered in the window; "
          "0..=3 new input bytes, output space 1..=18, flush in {NoFlush, SyncFlush, FullFlush, Finish}",
   assumptions=["reduced w_size/pending", "raw wrapper"])
+h("kd6_stored_tiny_pending", D + "/kd6_stored.rs", "deflate::verif_kani::kd6_stored", ["C01", "C05", "C06"],
+  kernel="KD6", tier="thorough", expect_s=500, timeout=3000, weight=3, mem_gb=24,
+  functions=["algorithm::stored::deflate_stored", "zng_tr_stored_block", "flush_pending"],
+  bounds="as kd6_stored_resume with a pending buffer of 8 bytes (a stored block of at most 3 bytes fits): 0..=4 bytes buffered, 0..=2 new, output 1..=18, any flush",
+  assumptions=["reduced w_size/pending", "raw wrapper"])
 # ---------------------------------------------------------------- deflate: KD7 status machine
 RUNSTUB = ["algorithm::run -> contract stub (consumes all input, emits nothing, returns NeedMore/BlockDone/FinishDone by flush)",
            "<[u16]>::fill -> ptr::write_bytes(0) model (head.fill(0) is a 65536-iteration loop under CBMC)"]
@@ -301,7 +306,7 @@ h("ki8_small_entry_points", I + "/ki8_entry.rs", "inflate::verif_kani::ki8_entry
 h("ki8_sync", I + "/ki8_entry.rs", "inflate::verif_kani::ki8_entry", ["C16", "C02", "C15"],
   kernel="KI8", expect_s=120, timeout=1200, weight=2,
   functions=["inflate::sync", "syncsearch", "BitReader::start_sync_search", "inflate::reset"],
-  bounds="0..=7 symbolic input bytes, empty bit register, any wrap, header seen or not; reference scan for 00 00 FF FF in the harness")
+  bounds="0..=6 symbolic input bytes, bit register empty / 5 stray bits / one whole symbolic byte, any wrap, header seen or not; reference scan for 00 00 FF FF in the harness")
 
 # ---------------------------------------------------------------- inflateBack
 def KB1_US(main, body="back_instance"):
@@ -378,7 +383,7 @@ h("kc9_adler_piecewise_fold_copy", AD, ADP, ["C09", "C08"], kernel="KC9", expect
 
 # ---------------------------------------------------------------- Engine B (MIR -> SMT-LIB) queries
 ENGINE_B.append({"name": "compress_bound", "props": ["C07"]})
-# adler32_combine == definition does not terminate in z3/cvc5 (DESIGN.md 7.5): not registered, not claimed
+ENGINE_B.append({"name": "adler32_combine", "props": ["C09"]})   # range + low half only; high half == definition does not terminate
 ENGINE_B.append({"name": "small_integer_kernels", "props": ["C06", "C08"]})
 
 # ---------------------------------------------------------------- copy kernels (C14)
@@ -389,17 +394,11 @@ h("kd10c_symbuf_clone_to", "zlib-rs/src/deflate/sym_buf/verif_kani.rs", "deflate
 h("ki8c_window_clone_to", "zlib-rs/src/inflate/window/verif_kani.rs", "inflate::window::verif_kani", ["C14"], kernel="KI8c", expect_s=20, timeout=600,
   functions=["inflate::Window::clone_to", "Window::extend"], bounds="W = 8, any history from one extend of <= 12 bytes")
 
-for _nm, _sym, _r in [("16_exact", 16, 4), ("16_over", 16, 3), ("17_exact", 17, 6), ("17_over", 17, 5), ("17_short", 17, 7), ("18_exact", 18, 11),
-                      ("18_exact_long", 18, 12), ("18_over", 18, 11), ("16_suspend", 16, 5), ("17_suspend", 17, 5), ("18_suspend", 18, 20)]:
-    h("ki5c_codelens_" + _nm, BLK, BP, ["C03", "C04", "C02"], kernel="KI5c", expect_s=60, timeout=1200, weight=2, mem_gb=16,
-      functions=["State::dispatch (mode CodeLens, Len_)"],
-      bounds="concrete code-length code {0:2,1:2,2:3,16:3,17:3,18:3 bits}, HLIT 257 / HDIST 3; one run-length item with code %d: repeat count concrete "
-             "(run ends exactly at / one past / one short of HLIT+HDIST, or the extra bits are missing = suspension), %d lengths outstanding, "
-             "symbolic previous length and end-of-block length" % (_sym, _r),
-      unwindset=DISPATCH_US(2, inner=4) + [("spec_fill", None, 14)],
-      assumptions=["inflate_table -> stub returning Success (table contents are KI4's subject; the symbol decoder is stubbed to suspend)",
-                   "State::len_and_friends -> 'suspends at once'", "checked stubs for Writer::copy_match / extend_from_window",
-                   "repeat count concrete per instance (symbolic counts ran out of memory at 20 GB)"])
+# ki5c_codelens_* (Mode::CodeLens run-length items, harness source kept in ki5_blocks.rs): NOT registered.  Every formulation
+# tried -- symbolic items (timeout 1800 s), concrete code + symbolic count (out of memory at 20 GB), fully concrete item with
+# `fill` unwound (symex 270 s, then out of memory) or modelled by write_bytes (SSA conversion > 18 min) -- failed to finish: the
+# arm stores into `lens[]` inside the 14 KB decoder state at symbolic offsets.  The seeded changes C03a and C04a live there
+# and are therefore not detected (DESIGN.md 7.7).
 
 # ---------------------------------------------------------------- inflate: KI6 fast loop
 h("ki6_fast_loop_room", I + "/ki6_fast.rs", "inflate::verif_kani::ki6_fast", ["C02"], kernel="KI6", expect_s=300, timeout=2400, weight=3, mem_gb=20,
@@ -479,7 +478,7 @@ QUICK = {
             "kd10_set_dictionary_protocol"],
     "C06": ["kd7_zlib_wrapper", "kd7_zlib_starved_finish", "kd10_prime", "kd10_params_tune", "kd10_set_header",
             "kd8_quick_finish_n1", "ka1_alloc_overflow_and_null"],
-    "C07": ["kd8_quick_finish_n1", "kd8_quick_finish_n3", "kd6_stored_one_call"],
+    "C07": ["kd8_quick_finish_n1", "kd8_quick_finish_n3", "kd6_stored_one_call", "kd7_gzip_header_none_s1"],
     "C08": ["ki5e_check_zlib", "ki5e_check_gzip", "ki5e_length_gzip", "ki5b_hcrc", "ki5b_fixed_part", "ki5b_name",
             "ki7_inflate_copyblock", "kc9_adler_len_0_1_2_3"],
     "C09": ["kc9_crc_tables", "kc9_crc_braid_table", "kc9_crc_naive_step", "kc9_crc_braid_short",
